@@ -501,3 +501,16 @@ def missing_twins():
 
 
 S2["missing_twins"] = missing_twins
+
+
+def unary_nonsample_flagged():
+    """unary_nonsample whose unary node 3 (not a sample) carries another flag bit (as msprime's
+    recombination / common-ancestor event nodes or tsinfer's path-compression nodes do)."""
+    t = unary_nonsample().dump_tables()
+    flags = t.nodes.flags.copy()
+    flags[3] = 1 << 17
+    t.nodes.flags = flags
+    return t.tree_sequence()
+
+
+S2_UNARY["unary_nonsample_flagged"] = unary_nonsample_flagged
